@@ -71,9 +71,13 @@ def run(chk):
         if not (isinstance(ef, FuncRef) and isinstance(inf, FuncRef)):
             raise AnalysisError('lookup tables do not hold repo functions')
         etab = it.call(ef.mod, ef.node, [e]); itab = it.call(inf.mod, inf.node, [I])
-        for sync in (False, True):
-            sp = n if sync else spin
-            cfg = f'N={N} lmax={L} obliquity={"on" if obl else "off"} {"spin is n" if sync else "generic spin"}'
+        # spin states: a generic spin, the synchronous one (the very same value), and exact spin-orbit resonances given as numbers times n (modes of exactly zero frequency
+        # exist there and are not skipped: their terms must not reach any output)
+        res_list = [(X.const(F(3, 2)), 'spin = 3n/2')] if chk.tier == 'quick' else [(X.const(F(3, 2)), 'spin = 3n/2'), (X.const(2), 'spin = 2n'), (X.const(F(1, 2)), 'spin = n/2'), (X.const(-1), 'spin = -n'), (X.ZERO, 'spin = 0')]
+        if (N, L, obl) not in ((2, 2, True), (6, 2, False), (4, 3, False)) and chk.tier == 'quick':
+            res_list = []
+        for sync, sp, splab in [(False, spin, 'generic spin'), (True, n, 'spin is n')] + [(False, r_ * n, lab_) for r_, lab_ in res_list]:
+            cfg = f'N={N} lmax={L} obliquity={"on" if obl else "off"} {splab}'
             captured.clear()
             uniq, res = it.call(mm, f_terms, [sp, n, a, R, etab, itab], {'multiply_modes_by_sign': True})
             terms = list(captured)
@@ -105,8 +109,9 @@ def run(chk):
                     if d.equal(c, fq):
                         sig_class[sig] = ci; break
                 else:
-                    if sig in res and res[sig]:
-                        badc.append(f'signature {sig} stores results under a frequency that no (l,m,p,q) mode has')
+                    # (a mode of exactly zero frequency may be stored, with zeros: heating U|w| = 0 and sgn(0) = 0 in the three derivatives)
+                    if sig in res and any(not d.is_zero(X.lift(v_)) for tup_ in res[sig].values() for v_ in tup_):
+                        badc.append(f'signature {sig} stores non-zero results under a frequency that no (l,m,p,q) mode of non-zero frequency has')
             for ci, c in enumerate(classes):
                 for l in range(2, L + 1):
                     ref4 = [X.ZERO] * 4; members = []
@@ -451,7 +456,8 @@ def entry_point(chk, repo):
             if any(PathExplorer.arm(v_, o_)[0] == 'equality' for (v_, _w, _t, o_) in trace):
                 continue
             for q in ('tidal_heating', 'dUdM', 'dUdw', 'dUdO'):
-                if q not in out or not dd.equal(X.lift(out[q]), X.lift(generic[q])):
+                # (equal as expressions, or -- a table tabulated twice, once for zero obliquity, in rounded decimals -- to 1e-10 of their scale at every sample point)
+                if q not in out or not (dd.equal(X.lift(out[q]), X.lift(generic[q])) or dd.close(X.lift(out[q]), X.lift(generic[q]))):
                     bad.append(f'{q} differs from the generic result at that value' + PathExplorer.label(trace)); break
         chk.ob('R10.9', f'quick_tidal_dissipation (Maxwell, free spin, l<=3, e^4, array inputs) with {lab} passed as a number: heating and the three potential derivatives == the generic result at that value',
                not bad, '; '.join(bad[:2]), where, key=f'R10.9|limit|{lab}', method='array-mode interpretation + pinned GF(p^2) PIT')
